@@ -20,6 +20,12 @@ use crate::spec::*;
 
 pub struct C06;
 
+fn kk_seed(i: usize) -> usize {
+    // a few different draws, none special
+    [12345, 1, 8_388_607, 4_194_304, 77, 4096, 999_999, 5, 2_000_000, 31, 7_000_000, 123, 65_536][i % 13]
+}
+
+
 const N: u32 = 1 << 23;
 
 #[derive(Clone, Debug, Serialize, Deserialize)]
@@ -407,6 +413,36 @@ impl Prop for C06 {
                 }
             }
             obs.hit("decoded_state_checked");
+
+            // every event kind's slot survives the string form: a certain transition declared for
+            // event e of a decoded machine is taken on e and on no other event
+            for (ei, e) in EVENTS.iter().enumerate() {
+                let spec = StateSpec { trans: vec![(ei as u8, vec![(1, Fs(1.0))])], ..StateSpec::default() };
+                let mspec = MachineSpec {
+                    allowed_padding_packets: 0,
+                    max_padding_frac: Fx(0.0),
+                    allowed_blocked_microsec: 0,
+                    max_blocking_frac: Fx(0.0),
+                    states: vec![spec, StateSpec::default()],
+                };
+                let text = crate::mirror::v2_string(&crate::mirror::bincode_of(&crate::mirror::mmachine(&mspec)));
+                let decoded = Machine::from_str(&text).map_err(|e| Failure {
+                    signature: "validated-vector-rejected-by-from_str".into(),
+                    detail: e.to_string(),
+                })?;
+                for f in EVENTS.iter() {
+                    rng.0 = (kk_seed(ei) as u32) << 9;
+                    let got = decoded.states[0].sample_state(*f, &mut rng);
+                    let want = if f == e { Some(1) } else { None };
+                    if got != want {
+                        return fail(
+                            "decoded-transition-list-in-the-wrong-event-slot",
+                            format!("a machine decoded from its string declares {e:?} -> 1 (p = 1) only: on {f:?} its state gives {got:?}, expected {want:?}"),
+                        );
+                    }
+                }
+            }
+            obs.hit("decoded_event_slots_checked");
         }
 
         // 2c. delivery: each external event kind reaches a machine that declares a certain
@@ -528,7 +564,7 @@ impl Prop for C06 {
     }
 
     fn required_classes() -> Vec<&'static str> {
-        vec!["dyadic_exact", "non_dyadic_tolerance", "sum_exactly_one", "pseudo_state_target", "vector_rejected_by_validation", "decoded_state_checked", "delivery_probe"]
+        vec!["dyadic_exact", "non_dyadic_tolerance", "sum_exactly_one", "pseudo_state_target", "vector_rejected_by_validation", "decoded_state_checked", "decoded_event_slots_checked", "delivery_probe"]
     }
 
     fn assumptions() -> Vec<&'static str> {
